@@ -39,6 +39,11 @@ pub struct Profile {
     pub p_stale_slot_after_pop: f64,
     /// several labels on one function entry
     pub p_alias_label: f64,
+    /// `jal tN, label` (a jump that links into a register other than ra) instead of `j label`
+    pub p_jal_other_rd: f64,
+    /// a conditional branch whose target is a function entry (static workloads only: the
+    /// programs are not meant to be executed)
+    pub p_branch_to_function: f64,
 }
 
 impl Profile {
@@ -59,14 +64,20 @@ impl Profile {
             p_dead_def: 0.0,
             p_temp_across_call: 0.0,
             p_read_undefined: 0.0,
-            p_partial_width: 0.0,
+            p_partial_width: 0.06,
             p_redefine_after_spill: 0.0,
             p_read_saved_original: 0.0,
             p_sub_from_const: 0.0,
             p_div_zero_zero: 0.0,
             p_stale_slot_after_pop: 0.0,
             p_alias_label: 0.15,
+            p_jal_other_rd: 0.0,
+            p_branch_to_function: 0.0,
         }
+    }
+    /// Wild programs that additionally branch conditionally into functions (not executable).
+    pub fn wild_static() -> Profile {
+        Profile { p_branch_to_function: 0.08, ..Profile::wild() }
     }
     /// Supported-subset programs that need not be conforming (C01, C02, C03, C11, C12).
     pub fn wild() -> Profile {
@@ -85,13 +96,15 @@ impl Profile {
             p_dead_def: 0.15,
             p_temp_across_call: 0.1,
             p_read_undefined: 0.05,
-            p_partial_width: 0.04,
+            p_partial_width: 0.08,
             p_redefine_after_spill: 0.1,
             p_read_saved_original: 0.05,
             p_sub_from_const: 0.05,
             p_div_zero_zero: 0.02,
             p_stale_slot_after_pop: 0.02,
             p_alias_label: 0.15,
+            p_jal_other_rd: 0.15,
+            p_branch_to_function: 0.0,
         }
     }
 }
@@ -544,10 +557,22 @@ impl<'a> G<'a> {
         } else {
             StoreW::W
         };
-        self.emit(Ins::Store { w, rs2: r, off, base: SP });
+        // narrow stores may hit any byte / half of the slot
+        let sub = match w {
+            StoreW::B => self.rng.below(4) as i32,
+            StoreW::H => 2 * self.rng.below(2) as i32,
+            StoreW::W => 0,
+        };
+        self.emit(Ins::Store { w, rs2: r, off: off + sub, base: SP });
         if w == StoreW::W {
             if !f.st.stored.contains(&off) {
                 f.st.stored.push(off);
+            }
+        } else if f.st.stored.contains(&off) && self.rng.chance(0.6) {
+            // read the whole slot back after the narrow store
+            if let Some(rd) = self.dst(f, &[]) {
+                self.emit(Ins::lw(rd, off, SP));
+                self.define(f, rd);
             }
         }
         if r != ZERO && self.rng.chance(self.prof.p_redefine_after_spill) && f.pool & bit(r) != 0
@@ -734,7 +759,16 @@ impl<'a> G<'a> {
                     )
                 } else {
                     let off = f.spare.first().copied().unwrap_or(0);
-                    self.emit_flag(Ins::sw(t, off, SP), Flag::ViolOnly)
+                    if self.rng.chance(0.4) {
+                        // the first reader also overwrites the register it reads
+                        let op = *self.rng.pick(&[AluOp::Add, AluOp::Sll, AluOp::Xor]);
+                        let imm = 1 + self.rng.below(7) as i32;
+                        let l = self.emit_flag(Ins::AluI { op, rd: t, rs1: t, imm }, Flag::ViolOnly);
+                        self.emit_flag(Ins::sw(t, off, SP), Flag::ViolOnly);
+                        l
+                    } else {
+                        self.emit_flag(Ins::sw(t, off, SP), Flag::ViolOnly)
+                    }
                 };
                 self.injected = true;
                 self.site_out.push(l);
@@ -757,6 +791,13 @@ impl<'a> G<'a> {
         let n = self.rng.range(self.prof.stmts.0 as i64, self.prof.stmts.1 as i64) as usize;
         for _ in 0..n {
             self.planted_simple(f);
+            if self.rng.chance(self.prof.p_branch_to_function) && !self.sigs.is_empty() {
+                // conditional branch straight to a function entry
+                let k = self.rng.below(self.sigs.len());
+                let name = self.sigs[k].name.clone();
+                let (c, a, b) = self.cond_regs(f);
+                self.emit(Ins::Branch { c, rs1: a, rs2: b, label: name });
+            }
             let c = self.rng.below(100) as f64 / 100.0;
             let can_nest = f.depth < self.prof.max_depth;
             if c < self.prof.p_call {
@@ -785,7 +826,15 @@ impl<'a> G<'a> {
         {
             let l = if f.frame > 0 {
                 let off = f.spare.first().copied().unwrap_or(0);
-                self.emit_flag(Ins::sw(f.never, off, SP), Flag::ViolOnly)
+                if self.rng.chance(0.4) {
+                    // the first reader also overwrites the register it reads
+                    let imm = self.imm12();
+                    let l = self.emit_flag(Ins::addi(f.never, f.never, imm), Flag::ViolOnly);
+                    self.emit_flag(Ins::sw(f.never, off, SP), Flag::ViolOnly);
+                    l
+                } else {
+                    self.emit_flag(Ins::sw(f.never, off, SP), Flag::ViolOnly)
+                }
             } else {
                 self.emit_flag(
                     Ins::Alu { op: AluOp::Add, rd: f.acc, rs1: f.acc, rs2: f.never },
@@ -916,7 +965,13 @@ impl<'a> G<'a> {
         let mut else_returns = false;
         if has_else {
             if !then_returns {
-                self.emit(Ins::j(&l_end));
+                if self.rng.chance(self.prof.p_jal_other_rd) {
+                    // a jump that links into some temporary (the link value is simply not used)
+                    let link = f.never;
+                    self.emit(Ins::Jal { rd: link, label: l_end.clone() });
+                } else {
+                    self.emit(Ins::j(&l_end));
+                }
                 if self.want(Inject::Unreachable, f) {
                     let mut lines = Vec::new();
                     let n = self.rng.range(1, 3);
